@@ -152,7 +152,7 @@ static Node *postfix(Token **rest, Token *tok);
 static Node *funcall(Token **rest, Token *tok, Node *node);
 static Node *unary(Token **rest, Token *tok);
 static Node *primary(Token **rest, Token *tok);
-static Token *parse_typedef(Token *tok, Type *basety);
+static Token *parse_typedef(Token *tok, Type *basety, Node **code);
 static bool is_variably_modified(Type *ty);
 static bool is_function(Token *tok);
 static Token *function(Token *tok, Type *basety, VarAttr *attr);
@@ -2020,7 +2020,12 @@ static Node *compound_stmt(Token **rest, Token *tok) {
       Type *basety = declspec(&tok, tok, &attr);
 
       if (attr.is_typedef) {
-        tok = parse_typedef(tok, basety);
+        Node *code = NULL;
+        tok = parse_typedef(tok, basety, &code);
+        if (code) {
+          cur = cur->next = new_unary(ND_EXPR_STMT, code, tok);
+          add_type(cur);
+        }
         continue;
       }
 
@@ -3766,7 +3771,30 @@ static Node *primary(Token **rest, Token *tok) {
   error_tok(tok, "expected an expression");
 }
 
-static Token *parse_typedef(Token *tok, Type *basety) {
+// A typedef of a variably modified type evaluates the array lengths
+// once, where it stands, not at each declaration that uses the name
+// (C11 6.7.8p3). Returns a copy of the variably modified part of ty in
+// which each length is a hidden variable, and appends the assignments
+// that set these variables to *code.
+static Type *freeze_vla_len(Type *ty, Node **code, Token *tok) {
+  if (!is_variably_modified(ty))
+    return ty;
+
+  ty = copy_type(ty);
+  ty->base = freeze_vla_len(ty->base, code, tok);
+  if (ty->kind != TY_VLA)
+    return ty;
+
+  Obj *len = new_lvar("", ty_ulong);
+  Node *expr = new_binary(ND_ASSIGN, new_var_node(len, tok), ty->vla_len, tok);
+  *code = *code ? new_binary(ND_COMMA, *code, expr, tok) : expr;
+  ty->vla_len = new_var_node(len, tok);
+  return ty;
+}
+
+// `code` receives the code a block-scope typedef has to execute; it is
+// NULL at file scope, where no type is variably modified.
+static Token *parse_typedef(Token *tok, Type *basety, Node **code) {
   bool first = true;
 
   while (!consume(&tok, tok, ";")) {
@@ -3777,7 +3805,11 @@ static Token *parse_typedef(Token *tok, Type *basety) {
     Type *ty = declarator(&tok, tok, basety);
     if (!ty->name)
       error_tok(ty->name_pos, "typedef name omitted");
-    push_scope(get_ident(ty->name))->type_def = ty;
+
+    char *name = get_ident(ty->name);
+    if (code)
+      ty = freeze_vla_len(ty, code, ty->name);
+    push_scope(name)->type_def = ty;
   }
   return tok;
 }
@@ -4063,7 +4095,7 @@ Obj *parse(Token *tok) {
 
     // Typedef
     if (attr.is_typedef) {
-      tok = parse_typedef(tok, basety);
+      tok = parse_typedef(tok, basety, NULL);
       continue;
     }
 
